@@ -23,9 +23,11 @@ import (
 	"bytes"
 	"encoding/json"
 	"fmt"
+	"hash/crc32"
 	"math/big"
 	"os"
 	"runtime/debug"
+	"runtime/pprof"
 	"sort"
 	"strings"
 	"time"
@@ -106,6 +108,8 @@ func cfgSigners(cfg, prefix string) []signer {
 		return []signer{{k("A"), 50}, {k("B"), 50}}
 	case "m603010":
 		return []signer{{k("A"), 60}, {k("B"), 30}, {k("C"), 10}}
+	case "m9901":
+		return []signer{{k("A"), 99}, {k("B"), 1}}
 	case "m100x1":
 		l := make([]signer, 100)
 		for i := range l {
@@ -116,13 +120,13 @@ func cfgSigners(cfg, prefix string) []signer {
 	panic("bad cfg " + cfg)
 }
 
-var allCfgs = []string{"plain", "m100", "m5050", "m603010", "m100x1"}
+var allCfgs = []string{"plain", "m100", "m5050", "m603010", "m9901", "m100x1"}
 
 func cfgs() []string {
 	if core.Thorough() {
 		return allCfgs
 	}
-	return allCfgs[:4]
+	return allCfgs[:5]
 }
 
 // canonical sender list of a configuration (role names)
@@ -130,7 +134,7 @@ func canonList(cfg string) []string {
 	switch cfg {
 	case "plain", "m100":
 		return []string{"A"}
-	case "m5050":
+	case "m5050", "m9901":
 		return []string{"A", "B"}
 	case "m603010":
 		return []string{"A", "B", "C"}
@@ -166,6 +170,7 @@ type world struct {
 	firstHash           common.Hash
 	firstCase           *Case
 	vCreates, vAccepted int
+	shardI, shardN      int // whole-node runs of a packaged class are done by one designated worker
 }
 
 func newAcct(name string, signers []signer) *acct {
@@ -185,7 +190,7 @@ func modifySignersData(l []signer) []byte {
 }
 
 func newWorld() *world {
-	w := &world{S: map[string]*acct{}, S2: map[string]*acct{}, byAddr: map[common.Address]*acct{}, watch: map[common.Address]string{}, groups: map[string]*group{}, seenClass: map[string]bool{}}
+	w := &world{shardN: 1, S: map[string]*acct{}, S2: map[string]*acct{}, byAddr: map[common.Address]*acct{}, watch: map[common.Address]string{}, groups: map[string]*group{}, seenClass: map[string]bool{}}
 	var all []*acct
 	for _, c := range cfgs() {
 		w.S[c] = newAcct("S/"+c, cfgSigners(c, ""))
@@ -818,7 +823,8 @@ func enumerate(emit func(Case)) {
 	if core.Thorough() {
 		maxLen, maxLenBad, maxP = 4, 3, 4
 	}
-	small := func(cfg string) bool { return cfg != "m100x1" }
+	// m9901 ({A:99,B:1}: one short of the threshold) and m100x1 are run with short lists only in F1
+	small := func(cfg string) bool { return cfg != "m100x1" && cfg != "m9901" }
 	// F1: sender signature lists x gas-payer arrangement
 	for n := 0; n <= maxLen; n++ {
 		for _, cfg := range cfgs() {
@@ -832,12 +838,17 @@ func enumerate(emit func(Case)) {
 						continue
 					}
 					for _, wr := range wraps(typ) {
+						if n >= 4 && !((pm.name == "none" || pm.name == "plain") && wr == "bare" || pm.name == "none" && typ == "transfer") {
+							// length 4: the signature check does not depend on the type or the wrapping; all types bare
+							// without / with a plain payer, and the boxed transfer
+							continue
+						}
 						seqs(senderAlphabet(cfg), n, func(l []string) {
 							ps := pm.psigs
 							if ps == nil {
 								ps = payerCanon(cfg)
-								if !small(cfg) {
-									return // self-paying 100-signer account: in F5
+								if cfg == "m100x1" {
+									return // self-paying 100-signer account: not run
 								}
 							}
 							emit(Case{Fam: "F1-sender-lists", Cfg: cfg, Typ: typ, Payer: pm.payer, Mode: pm.name, Kind: pm.kind, Sigs: l, PSigs: ps, Wrap: wr,
@@ -857,6 +868,9 @@ func enumerate(emit func(Case)) {
 			for _, typ := range types5 {
 				for _, payer := range []string{"P", "PM"} {
 					for _, wr := range wraps(typ) {
+						if n >= 4 && !(typ == "transfer" && wr == "bare") {
+							continue
+						}
 						seqs(payerAlphabet[payer], n, func(l []string) {
 							kind := kReimb
 							if n == 0 {
@@ -929,7 +943,7 @@ func enumerate(emit func(Case)) {
 	}
 	// F5: the 100 x weight-1 account: long lists
 	for _, cfg := range cfgs() {
-		if small(cfg) {
+		if cfg != "m100x1" {
 			continue
 		}
 		all := canonList(cfg)
@@ -1249,17 +1263,18 @@ func cause(c *Case, b *built) string {
 	}
 	_ = side
 	switch {
+	case si.multisig && si.withRepeats >= 100:
+		// the signatures that do authorise this content reach the threshold only when a signer is counted more than once
+		if si.repeatsDiffer {
+			return "multisig-signer-counted-twice/second-nonce"
+		}
+		return "multisig-signer-counted-twice/identical-bytes"
 	case len(si.staleFields) > 0:
 		kind := c.Kind
 		if pre != "" {
 			kind = "gas-payer"
 		}
 		return fmt.Sprintf("tampered-field-effective/%s-hash/%s", kind, strings.Join(si.staleFields, "+"))
-	case si.multisig && si.withRepeats >= 100:
-		if si.repeatsDiffer {
-			return "multisig-signer-counted-twice/second-nonce"
-		}
-		return "multisig-signer-counted-twice/identical-bytes"
 	case si.withNonCanon:
 		return pre + "re-encoded-signature-counted"
 	}
@@ -1318,7 +1333,7 @@ func (w *world) runMiner(b *built, v *verdict) {
 }
 
 // runProcess: the validator's transaction path (RunBlock -> Process) on the same parent state.
-func (w *world) runProcess(b *built, v *verdict) {
+func (w *world) runProcess(b *built, v *verdict, classify bool) {
 	node.SetSelf(node.Deputy(0))
 	defer w.f.Use()
 	am := account.NewManager(w.head.Hash(), w.f.DB)
@@ -1341,7 +1356,12 @@ func (w *world) runProcess(b *built, v *verdict) {
 	default:
 		v.procErr = err.Error()
 	}
-	// refusal class of the case transaction itself
+	// refusal class of the case transaction itself (branch counter); skipped for the long lists, where it
+	// would be a third signature-recovery pass
+	if !classify {
+		v.verifyErr = "(long list: not classified)"
+		return
+	}
 	am2 := account.NewManager(w.head.Hash(), w.f.DB)
 	proc2 := transaction.NewTxProcessor(node.Founder().Addr, node.ChainID, parentLoader{w.f.DB}, am2, w.f.DB, w.f.DM)
 	if e := proc2.VerifyTxBeforeApply(b.tx.Clone()); e != nil {
@@ -1404,13 +1424,24 @@ func (w *world) run(c *Case, r *core.Result, wholeNodeAll bool) (out runOut, vio
 		viol = append(viol, core.Violation{Fingerprint: prop + "/miner-path-error/" + firstLine(v.makeErr), What: fmt.Sprintf("MineBlock failed (%s) in case {%s}", v.makeErr, c.String()), Replay: c})
 		return
 	}
-	w.runProcess(b, v)
+	w.runProcess(b, v, len(c.Sigs) <= 2 && len(c.PSigs) <= 2 || c.Canon || strings.HasPrefix(c.Fam, "F3"))
 	v.effective = v.packaged || v.applied || len(v.touched) > 0
 
 	// whole validator node
-	class := fmt.Sprintf("%s|%s|%s|%s|%s|%v|%s|%v", c.Fam, c.Cfg, c.Typ, c.Mode, c.Wrap, c.Tamper, v.verifyErr, v.packaged)
+	class := fmt.Sprintf("%s|%s|%s|%s|%s|%v|%s|%v|%v", c.Fam, c.Cfg, c.Typ, c.Mode, c.Wrap, c.Tamper, v.verifyErr, v.packaged, b.auth)
 	if v.packaged {
-		if wholeNodeAll || !w.seenClass[class] {
+		// accepted blocks change the validator's chain: a fresh validator per run. One run per class
+		// (thorough: finer classes), by the worker the class is assigned to; always for canonical forms
+		// and for the small families.
+		class = fmt.Sprintf("packaged|%s|%s|%s|%s|%v|%v", c.Cfg, c.Typ, c.Mode, c.Wrap, c.Tamper, b.auth)
+		if core.Thorough() {
+			class += fmt.Sprintf("|%d|%d", len(c.Sigs), len(c.PSigs))
+		}
+		mine := true
+		if strings.HasPrefix(c.Fam, "F1") || strings.HasPrefix(c.Fam, "F2") {
+			mine = int(crc32.ChecksumIEEE([]byte(class)))%w.shardN == w.shardI
+		}
+		if wholeNodeAll || c.Canon || (mine && !w.seenClass[class]) {
 			w.runNode(v.block, v)
 		}
 	} else if !w.seenClass[class] {
@@ -1483,6 +1514,21 @@ func (w *world) run(c *Case, r *core.Result, wholeNodeAll bool) (out runOut, vio
 			r.Add("canonical_forms_accepted", 1)
 		}
 		r.Add("branch/"+v.verifyErr, 1)
+		if c.Tamper != "" {
+			h := c.Kind + "-hash"
+			if c.Payer != "" && (c.Tamper == "gasPrice" || c.Tamper == "gasLimit" || c.Tamper == "sigs") {
+				h = "gas-payer-hash"
+			}
+			k := fmt.Sprintf("tamper/%s/%s", h, c.Tamper)
+			if c.Resign {
+				k += "(payer re-signed)"
+			}
+			if v.effective {
+				r.Add(k+"/effective", 1)
+			} else {
+				r.Add(k+"/ineffective", 1)
+			}
+		}
 		authS := "unauth"
 		if b.auth {
 			authS = "auth"
@@ -1582,7 +1628,7 @@ func main() {
 			os.Exit(2)
 		}
 		if c.Cfg == "m100x1" {
-			core.Opt.Tier = "thorough"
+			core.Opt.Tier = "thorough" // the 100-signer account exists only in the thorough prefix
 		}
 		w := newWorld()
 		defer w.close()
@@ -1603,8 +1649,14 @@ func main() {
 	}
 
 	if i, n, ok := core.IsWorker(); ok {
+		if pf := os.Getenv("C06_CPUPROFILE"); pf != "" {
+			f, _ := os.Create(pf)
+			pprof.StartCPUProfile(f)
+			defer pprof.StopCPUProfile()
+		}
 		r := core.NewResult(prop, "exploration")
 		w := newWorld()
+		w.shardI, w.shardN = i, n
 		idx := 0
 		stopped := false
 		var first *Case
@@ -1621,7 +1673,7 @@ func main() {
 				return
 			}
 			core.Journal(c.String())
-			out, vs := w.run(&c, r, core.Thorough())
+			out, vs := w.run(&c, r, false)
 			for _, v := range vs {
 				r.Violate(v.Fingerprint, v.What, v.Replay)
 			}
@@ -1644,6 +1696,7 @@ func main() {
 		}
 		r.Add("validator_nodes_created", int64(w.vCreates))
 		w.close()
+		pprof.StopCPUProfile()
 		core.WorkerDone(r)
 	}
 
@@ -1680,16 +1733,52 @@ func main() {
 	if r.Counters["evaluations"] != int64(total) && r.Exhaustive {
 		r.NotExhaustive(fmt.Sprintf("%d of %d cases evaluated", r.Counters["evaluations"], total))
 	}
-	// shrink what was found and confirm it twice
+	// Which shard reports a fingerprint first depends on timing: replace every example by the first
+	// case with that fingerprint in a fixed simplest-first list, else shrink it; confirm it twice.
 	if len(r.Violations) > 0 {
 		w := newWorld()
+		want := map[string]*Case{}
+		for _, v := range r.Violations {
+			want[v.Fingerprint] = nil
+		}
+		for pass := 0; pass < 2; pass++ { // first without a gas payer, then the rest
+			enumerate(func(c Case) {
+				if c.Typ != "transfer" || c.Wrap != "bare" || len(c.Sigs) > 3 || len(c.PSigs) > 2 || (pass == 0) != (c.Mode == "none") {
+					return
+				}
+				simple := strings.HasPrefix(c.Fam, "F1") && (c.Mode == "none" && len(c.Sigs) <= 2 || eqList(c.Sigs, canonList(c.Cfg))) ||
+					strings.HasPrefix(c.Fam, "F2") && c.Cfg == "plain" || strings.HasPrefix(c.Fam, "F3") && (c.Cfg == "plain" || c.Cfg == "m5050")
+				if !simple {
+					return
+				}
+				todo := false
+				for _, x := range want {
+					if x == nil {
+						todo = true
+					}
+				}
+				if !todo {
+					return
+				}
+				_, vs := w.run(&c, nil, false)
+				for _, x := range vs {
+					if cur, ok := want[x.Fingerprint]; ok && cur == nil {
+						cc := c
+						want[x.Fingerprint] = &cc
+					}
+				}
+			})
+		}
 		for i := range r.Violations {
 			v := &r.Violations[i]
-			c, ok := toCase(v.Replay)
-			if !ok {
+			var m Case
+			if c := want[v.Fingerprint]; c != nil {
+				m = *c
+			} else if c, ok := toCase(v.Replay); ok {
+				m = shrink(w, c, v.Fingerprint)
+			} else {
 				continue
 			}
-			m := shrink(w, c, v.Fingerprint)
 			confirmed := 0
 			var what string
 			for k := 0; k < 2; k++ {
